@@ -151,7 +151,7 @@ class _Lock:
 TRANSLATORS = {
     "translate_dekad.py": ["Hdc.Gen.Dekad"],
     "summarise_effects.py": ["Hdc.Gen.Effects"],
-    "translate_ws2d.py": ["Hdc.Gen.Ws2d"],
+    "translate_ws2d.py": ["Hdc.Gen.Ws2d", "Hdc.Gen.SafeWs2d"],
     "py2lean.py": [],          # per-kernel outputs: failures are reported as `FAILED <module>: reason`
     "py2lean_num.py": [],
     "py2lean_fixed.py": [],    # ws2dgu, ws2dpgu
